@@ -52,6 +52,12 @@ class RuleResult:
     def undecided(self, key, where, detail=""):
         self._add("undecided", key, where, detail)
 
+    def unrecognised(self, key, where, detail=""):
+        """the code the rule looks at has a shape the rule does not recognise: reported as undecided, and the instance floor
+        (which guards against passing vacuously, not against saying 'not decided') is waived"""
+        self._add("undecided", key, where, detail)
+        self.floor_waived = True
+
     def check(self, cond, key, where, detail_ok="", detail_bad=""):
         if cond:
             self.ok(key, where, detail_ok)
@@ -76,7 +82,7 @@ class RuleResult:
     def finish(self):
         """Floors and positive controls are checked here: a rule that matched
         fewer instances than were confirmed by hand cannot pass vacuously."""
-        if len(self.instances) < self.floor:
+        if len(self.instances) < self.floor and not getattr(self, "floor_waived", False):
             raise FloorUnmet("rule %s (%s) matched %d instances, floor is %d" % (
                 self.rule, self.title, len(self.instances), self.floor))
         bad = [n for n, f in self.controls if not f]
